@@ -29,7 +29,7 @@ def gen_cases(chk, n, rules=None, families=None, label='count', tweak=None):
             e = cd.gen_exact_quota(rng, *eq) if eq else cd.gen_election(rng, family='nearquota')
         else:
             e = cd.gen_tinyvote(rng, o['precision']) if fam == 'tinyvote' else cd.gen_election(rng, family=fam)
-        if o['rule'] == 'mpls':
+        if o['rule'] == 'mpls' and e.get('family') != 'writein_strong':
             k = rng.random()
             if e['wd'] and k < 0.7: cd.add_undeclared(rng, e)       # withdrawn candidates that are also undeclared write-ins
             elif k < 0.35: e = cd.gen_writein_election(rng)
